@@ -15,6 +15,17 @@ CLAIMED = {
         technique="Lean 4 proof (induction over byte lists, decide +kernel over regenerated tables) + "
                   "K-gen tables + differential correspondence",
         design="7/C16"),
+    "C17": dict(
+        text="Lean 4 theorems: for EVERY NUL-free input the in-place URL/Base64/hex decoders (raw-buffer models with "
+             "checked reads/writes and fuel) return ok, never touch a byte outside `s ++ [0]`, produce at most |s| bytes and "
+             "terminate the result; the query-string parser is total. Correspondence: exhaustive strings over each "
+             "format's significant alphabet + random inputs in exactly sized heap buffers under ASan/UBSan. "
+             "The INI/Apache parser half is pending (not yet modelled) and is named as such in the evidence.",
+        note="trusted: Lean kernel, hand transcription of the decoder loops (validated on explored inputs), gcc/ASan; "
+             "wall-clock termination of compiled code is observed by timeouts, the theorem is about fuel; parser half "
+             "(qconfig/qaconf) not yet covered by theorems.",
+        technique="Lean 4 proof (loop invariants on an in-place buffer, induction on fuel) + differential correspondence under ASan",
+        design="7/C17"),
 }
 
 PENDING = "check not built yet in this revision (planned: see DESIGN.md section 7); not claimed until its proof and correspondence run"
